@@ -10,7 +10,7 @@ Section Dialed.
   Variable parse_ip : bytes -> option ipraw.
   Variable ip_str : ipraw -> bytes.
   Variable re_match : N -> bytes -> bool.
-  Hypothesis ip_str_no_brackets : forall a, valid_ip a = true -> no_brackets (ip_str a) = true.
+  Hypothesis ip_str_no_brackets : forall a, valid_ip a = true -> wf_bytes a = true -> no_brackets (ip_str a) = true.
 
   (* the covert policy function the station hands to ingest *)
   Definition covert_fn resolve pol : bytes -> option bytes :=
@@ -20,7 +20,7 @@ Section Dialed.
      becomes valid: that object carries the literal computed for it at admission, and dialling the literal
      reaches the checked address whatever the name system answers by then. *)
   Lemma checked_is_dialed resolve resolve_later pol live cfg st r r' :
-    zone_law resolve -> literal_law ip_str resolve_later ->
+    zone_law resolve -> resolver_wf resolve -> literal_law ip_str resolve_later ->
     In (Announce r') (snd (ingest (covert_fn resolve pol) live cfg st r)) ->
     In r' (visible_all (fst (ingest (covert_fn resolve pol) live cfg st r))) /\
     exists lk host port a z a',
@@ -30,13 +30,13 @@ Section Dialed.
       dial_target resolve_later (r_covert r') = Some (a', z, port) /\
       norm a' = norm a /\ blocked pol a' = false.
   Proof.
-    intros Hz Hlit Hin. split.
+    intros Hz Hwf Hlit Hin. split.
     - rewrite ingest_visible. apply in_app_iff. right. now apply in_announced_regs.
     - destruct (ingest_announced_is_checked _ _ _ _ _ _ Hin) as (lit & Hc & ->).
       unfold covert_fn in Hc.
       destruct (parse_or_resolve parse_ip resolve ip_str re_match pol (r_covert r)) as [o lk] eqn:E.
       cbn [fst] in Hc. subst o.
-      destruct (dial_target_is_checked parse_ip ip_str re_match ip_str_no_brackets resolve resolve_later pol _ _ _ Hz Hlit E)
+      destruct (dial_target_is_checked parse_ip ip_str re_match ip_str_no_brackets resolve resolve_later pol _ _ _ Hz Hwf Hlit E)
         as (host & port & a & z & a' & H1 & H2 & H3 & H4 & H5 & H6 & H7).
       exists lk, host, port, a, z, a'. cbn [r_covert set_covert]. repeat split; auto.
   Qed.
